@@ -259,7 +259,7 @@ def run(repo: Repo, chk: Check) -> None:
         'the checker\'s own semantics of the target instructions and their outcome terms compared.  Bounded in name size.'
     )
     reg = registry_of(repo)
-    chk.minimum('registered macro patterns', len(reg), 27)
+    chk.minimum('registered macro patterns', len(reg), 10)  # handlers may be merged or split; what counts is the classification of the name universe below
     prim_tags = repo.const('pytezos.michelson.tags.prim_tags')
     em = repo.func(f'{M}.expand_macro')
     bt, bf, code = Sym('bt'), Sym('bf'), Sym('code')
